@@ -217,6 +217,9 @@ func c10Exec(c *Sexp) Outcome {
 			}
 		}
 	}
+	if o.OracleFail == "" {
+		o.OracleFail = reuseOracle(obs)
+	}
 	o.Nontrivial = sawWs
 	o.Tags = []string{fmt.Sprintf("tokens:%d", len(toks)), fmt.Sprintf("assertable:%v", assertable)}
 	if wantErr >= 0 {
